@@ -9,12 +9,13 @@ git -C /repo worktree add --detach $WT HEAD >/dev/null 2>&1 || { echo '{"error":
 cp "$D/seeded_demo.rs" $WT/scnr/tests/seeded_demo.rs
 cd $WT/scnr
 export CARGO_NET_OFFLINE=true
-cargo test --offline --test seeded_demo >/tmp/confirm_$ID.base.log 2>&1; BASE_DEMO=$?
+REL=${RELEASE:+--release}
+cargo test $REL --offline --test seeded_demo >/tmp/confirm_$ID.base.log 2>&1; BASE_DEMO=$?
 git -C $WT apply "$D/patch.diff" || { echo '{"error":"patch does not apply"}'; git -C /repo worktree remove --force $WT; exit 1; }
 cargo build --offline >/tmp/confirm_$ID.build.log 2>&1; BUILD=$?
 mv $WT/scnr/tests/seeded_demo.rs /tmp/confirm_$ID.demo.rs
 cargo test --offline >/tmp/confirm_$ID.suite.log 2>&1; SUITE=$?
 cp /tmp/confirm_$ID.demo.rs $WT/scnr/tests/seeded_demo.rs
-cargo test --offline --test seeded_demo >/tmp/confirm_$ID.mut.log 2>&1; MUT_DEMO=$?
+cargo test $REL --offline --test seeded_demo >/tmp/confirm_$ID.mut.log 2>&1; MUT_DEMO=$?
 cd /; git -C /repo worktree remove --force $WT >/dev/null 2>&1; rm -rf $WT
 echo "{\"id\":\"$ID\",\"demo_passes_without_change\":$([ $BASE_DEMO = 0 ] && echo true || echo false),\"builds_with_change\":$([ $BUILD = 0 ] && echo true || echo false),\"suite_passes_with_change\":$([ $SUITE = 0 ] && echo true || echo false),\"demo_fails_with_change\":$([ $MUT_DEMO != 0 ] && echo true || echo false)}"
